@@ -325,6 +325,9 @@ func (w *world) observe(in *muxdrv.BlockInput, bp *blockPlan, res *muxdrv.BlockR
 			touched[t.Owner] = true
 		}
 		for _, tr := range res.TxResults {
+			for _, t := range takeEscrows(tr.Events) { // slashing by an evidence transaction
+				touched[t.Owner] = true
+			}
 			for _, e := range tr.Events {
 				for _, a := range e.Attrs {
 					if a[0] == "debonding_start" {
